@@ -79,4 +79,115 @@ theorem queue_fifo (xs : List Int) :
   rw [hq]
   exact ⟨rfl, rfl, rfl⟩
 
+/-! ## Queue<T>, Vector<T>: laws over every history / every sequence (added after the first version) -/
+
+/-- the values handed out by `pop`, in order, along a whole operation history (and the final queue) -/
+def qrun : List Int → List QOp → List Int × List Int
+  | q, [] => (q, [])
+  | q, op :: r =>
+    let s := qstep q op
+    let t := qrun s.1 r
+    (t.1, match op, s.2 with
+          | .pop, some v => v :: t.2
+          | _, _ => t.2)
+
+/-- the values pushed along a history, in order -/
+def pushes : List QOp → List Int
+  | [] => []
+  | .push v :: r => v :: pushes r
+  | _ :: r => pushes r
+
+/-- **FIFO for every interleaving**: along any history of push/pop/top/size/empty (no `clear`) from any
+    queue `q`, the popped values followed by what is still queued are exactly the initial content followed
+    by the pushed values, in order — nothing lost, duplicated or reordered -/
+theorem queue_history_fifo (q : List Int) (ops : List QOp) (h : ∀ op ∈ ops, op ≠ QOp.clear) :
+    (qrun q ops).2 ++ (qrun q ops).1 = q ++ pushes ops := by
+  induction ops generalizing q with
+  | nil => simp [qrun, pushes]
+  | cons op r ih =>
+    have hr : ∀ o ∈ r, o ≠ QOp.clear := fun o ho => h o (List.mem_cons_of_mem _ ho)
+    cases op with
+    | push v =>
+      have := ih (q ++ [v]) hr
+      simp only [qrun, qstep, pushes]
+      rw [this]; simp
+    | pop =>
+      cases q with
+      | nil => have := ih [] hr; simpa [qrun, qstep, pushes] using this
+      | cons a t => have := ih t hr; simp [qrun, qstep, pushes, this]
+    | top => have := ih q hr; cases hq : q.head? <;> simpa [qrun, qstep, pushes, hq] using this
+    | size => have := ih q hr; simpa [qrun, qstep, pushes] using this
+    | empty => have := ih q hr; simpa [qrun, qstep, pushes] using this
+    | clear => exact absurd rfl (h _ (List.mem_cons_self))
+
+/-- `clear` forgets everything queued before it: the history after the last `clear` alone decides the rest -/
+theorem queue_clear_resets (q : List Int) (ops : List QOp) :
+    qrun (qstep q .clear).1 ops = qrun [] ops := by simp [qstep]
+
+example : qrun [] [.push 1, .push 2, .pop, .push 3, .pop, .top] = ([3], [1, 2]) := by decide
+
+/-! Vector laws over every sequence -/
+
+theorem vec_pushBack_popBack (l : List Int) (v : Int) :
+    (vstep (vstep l (.pushBack v)).1 .popBack).1 = l := by simp [vstep]
+
+theorem vec_pushFront_popFront (l : List Int) (v : Int) :
+    (vstep (vstep l (.pushFront v)).1 .popFront).1 = l := by simp [vstep]
+
+/-- the element pushed at the back is found at index `length`, and every earlier index is unchanged -/
+theorem vec_at_pushBack (l : List Int) (v : Int) (i : Nat) :
+    (vstep (vstep l (.pushBack v)).1 (.at i)).2 =
+      if i < l.length then l[i]? else if i = l.length then some v else none := by
+  simp only [vstep]
+  by_cases h1 : i < l.length
+  · simp [h1, List.getElem?_append_left h1]
+  · by_cases h2 : i = l.length
+    · subst h2; simp
+    · have : l.length + 1 ≤ i := by omega
+      simp [h1, h2, this]
+
+/-- pushing at the front shifts every index by one -/
+theorem vec_at_pushFront (l : List Int) (v : Int) (i : Nat) :
+    (vstep (vstep l (.pushFront v)).1 (.at (i + 1))).2 = l[i]? ∧
+    (vstep (vstep l (.pushFront v)).1 (.at 0)).2 = some v := by simp [vstep]
+
+/-- the length after each operation -/
+theorem vec_length_step (l : List Int) (op : VOp) :
+    (vstep l op).1.length = match op with
+      | .pushBack _ | .pushFront _ => l.length + 1
+      | .popBack | .popFront => l.length - 1
+      | .deleteAt i => if i < l.length then l.length - 1 else l.length
+      | .clear => 0
+      | _ => l.length := by
+  cases op <;> simp [vstep, List.length_eraseIdx]
+
+/-- `delete_at i` removes exactly position i: earlier indices keep their element, later ones shift down -/
+theorem vec_at_deleteAt (l : List Int) (i j : Nat) :
+    (vstep (vstep l (.deleteAt i)).1 (.at j)).2 = if j < i then l[j]? else l[j + 1]? := by
+  simp [vstep, List.getElem?_eraseIdx]
+
+/-- `find v` answers the first index holding `v`, and -1 exactly when `v` does not occur -/
+theorem vec_find_spec (l : List Int) (v : Int) :
+    match (vstep l (.find v)).2 with
+    | some r => (r = -1 ↔ v ∉ l) ∧ (r ≠ -1 → ∃ i : Nat, r = i ∧ l[i]? = some v ∧ ∀ j < i, l[j]? ≠ some v)
+    | none => False := by
+  simp only [vstep]
+  cases h : l.findIdx? (· == v) with
+  | none =>
+    simp only [List.findIdx?_eq_none_iff] at h
+    refine ⟨⟨fun _ hm => ?_, fun _ => rfl⟩, fun hne => absurd rfl hne⟩
+    have := h v hm; simp at this
+  | some i =>
+    rw [List.findIdx?_eq_some_iff_getElem] at h
+    obtain ⟨hi, hv, hlt⟩ := h
+    have hv' : l[i] = v := by simpa using hv
+    refine ⟨⟨fun h0 => by exfalso; have h1 : (i : Int) = -1 := h0; omega, fun hn => absurd (hv' ▸ List.getElem_mem hi) hn⟩, fun _ => ⟨i, rfl, ?_, ?_⟩⟩
+    · simp [hi, hv']
+    · intro j hj hjv
+      have hjl : j < l.length := by omega
+      have := hlt j hj
+      rw [List.getElem?_eq_getElem hjl] at hjv
+      simp at hjv this
+      exact this hjv
+
 end CbProps.C19
